@@ -136,7 +136,7 @@ func (rn *runner) tmp(prefix string) string {
 // death) and returns one Result per case that was judged.
 func (rn *runner) runShard(cases []Case, race bool) shardOutcome {
 	var oc shardOutcome
-	restarts := 0
+	restarts, ooms := 0, 0
 	for len(cases) > 0 {
 		cp := rn.tmp("cases")
 		op := rn.tmp("out")
@@ -243,7 +243,20 @@ func (rn *runner) runShard(cases []Case, race bool) shardOutcome {
 		var requeue []Case
 		switch {
 		case class == "oom":
-			res.NotJudged = "oom"
+			res.Add("oom_sites", frame)
+			res.Count("oom@"+frame, 1)
+			if strings.HasSuffix(frame, "|growslice") {
+				// Not one allocation of a declared size: a slice that grew
+				// step by step until the limit. Inputs are at most a few MB,
+				// so the loop is not consuming input - it is a call that
+				// does not return, ended only by the memory limit.
+				res.Viol = append(res.Viol, Violation{
+					Sig:    fmt.Sprintf("death|unbounded-growth|%s|%s", dead.Kind, strings.TrimSuffix(frame, "|growslice")),
+					Detail: "memory grew step by step (append in a loop) up to the limit; the call would not have returned\n" + detail,
+				})
+			} else {
+				res.NotJudged = "oom"
+			}
 			if rn.prop.Resumable {
 				if k, ok := lastInputMarker(string(stderr)); ok {
 					lo, hi := int64(0), int64(-1)
@@ -283,9 +296,16 @@ func (rn *runner) runShard(cases []Case, race bool) shardOutcome {
 		}
 		oc.results = append(oc.results, res)
 		cases = append(requeue, cases[idx+1:]...)
-		restarts++
-		if restarts > 400 {
-			oc.inconclusive = append(oc.inconclusive, "more than 400 child deaths in one shard; remaining cases not run")
+		// Deaths by the memory limit are expected where inputs are hostile
+		// (counted, not judged) and only cost a restart; any other kind of
+		// death in such numbers means the run is not telling us anything.
+		if class == "oom" {
+			ooms++
+		} else {
+			restarts++
+		}
+		if restarts > 400 || ooms > 50000 {
+			oc.inconclusive = append(oc.inconclusive, fmt.Sprintf("%d child deaths and %d memory-limit deaths in one shard; remaining cases not run", restarts, ooms))
 			break
 		}
 	}
@@ -344,6 +364,25 @@ func ClassifyDeath(stderr string, timedOut bool) (class, frame, detail string) {
 		frame = TopLibFrame(stderr)
 	case strings.Contains(stderr, "out of memory") || strings.Contains(stderr, "cannot allocate memory"):
 		class = "oom"
+		// where, and how: one allocation of a declared size (makeslice and
+		// friends) or a slice growing step by step (growslice)
+		if i := strings.Index(stderr, "fatal error: "); i >= 0 {
+			st := stderr[i:]
+			if j := strings.Index(st, "\ngoroutine "); j >= 0 {
+				st = st[j:]
+				if k := strings.Index(st[1:], "\n\n"); k >= 0 {
+					st = st[:k+1]
+				}
+			}
+			how := "alloc"
+			switch {
+			case strings.Contains(st, "runtime.growslice"):
+				how = "growslice"
+			case strings.Contains(st, "runtime.makeslice"):
+				how = "makeslice"
+			}
+			frame = TopLibFrame(st) + "|" + how
+		}
 	case strings.Contains(stderr, "concurrent map"):
 		class = "concurrent map"
 		frame = TopLibFrame(stderr)
